@@ -20,6 +20,21 @@ static void flux_sector_copy(const struct FluxSector *s, SectorBuffer *buf)    /
   __CPROVER_loop_invariant((g_e < si_) ==> !SectorAddress_eq_M(h_flux[g_e].address, addr)) \
   __CPROVER_decreases(self->sectors_n - si_)
 #define SectorAddress_eq_M(a, b) ((a).cylinder == (b).cylinder && (a).head == (b).head && (a).record == (b).record)
+/* std::lower_bound(first, last, want, [](s, a){ return s.address < a; }): the first element that is not before `want` (the
+   standard's result for a list partitioned by the comparison; written as the linear definition) */
+#define ADDR_LT_(a, b) ((a).cylinder < (b).cylinder || ((a).cylinder == (b).cylinder && ((a).head < (b).head || ((a).head == (b).head && (a).record < (b).record))))
+static size_t flux_lower_bound_model(const struct FluxAdapter *self, const struct SectorAddress *want)
+{
+  size_t r = self->sectors_n; _Bool found = 0;
+  /* written out for the FS_MAX = 64 positions (a loop here would be unwound after dfcc's instrumentation, which then flags its
+     counter as a frame violation) */
+#define LB1_(i) if ((size_t)(i) < self->sectors_n && !found && !ADDR_LT_(h_flux[i].address, *want)) { r = (i); found = 1; }
+#define LB8_(b) LB1_((b) + 0) LB1_((b) + 1) LB1_((b) + 2) LB1_((b) + 3) LB1_((b) + 4) LB1_((b) + 5) LB1_((b) + 6) LB1_((b) + 7)
+  LB8_(0) LB8_(8) LB8_(16) LB8_(24) LB8_(32) LB8_(40) LB8_(48) LB8_(56)
+#undef LB8_
+#undef LB1_
+  return r;
+}
 #define FIND_LOOP_CONTRACT \
   __CPROVER_assigns(it) \
   __CPROVER_loop_invariant(it <= self->sectors_n) \
